@@ -121,8 +121,10 @@ func (m *c05Mon) finish(err error) {
 	}
 	if !m.lastEnds {
 		// the framework stopped before the reference path was complete
+		if !m.cancelled {
+			return // stopping early without any cancellation is not this property's business (C01/C03)
+		}
 		vCover("cut-short")
-		vAssert(m.cancelled, "run-stops-early-only-because-of-cancellation")
 		vAssert(err != nil, "cut-short-run-does-not-report-success")
 		vAssert(err != nil && errors.Is(err, m.ctx.Err()), "cut-short-run-error-matches-ctx-error")
 	} else {
